@@ -350,13 +350,7 @@ def install(ai: AbsInt, ctx, clip_model=True):
     ai.summaries['mido/midifiles/midifiles.py::read_bytes'] = s_read_bytes
 
     def current_charset(interp):
-        key = (META_MOD, '_charset')
-        if key in interp.global_store:
-            return interp.global_store[key]
-        try:
-            return interp.f.global_value(ctx.p.module(META_MOD), '_charset')
-        except Exception:
-            return Opaque('charset')
+        return charset_in_force(interp, ctx)
 
     def s_encode_string(interp, args, kwargs, node):
         from .absint import log_event
@@ -461,6 +455,76 @@ def make_meta(ai, ctx, type_, attrs, time):
     d.update(attrs)
     d['time'] = time
     return AObj(cls, d, name=f'meta:{type_}')
+
+
+class CodecProbe:
+    """A text whose .encode(...) call is recorded: fed to the library's own encode_string it shows which charset is in force,
+    wherever the library keeps that setting (a module global, an attribute of a private state object...)."""
+    py_type = 'str'
+
+    def __init__(self):
+        self.used = []
+
+    def absint_hasattr(self, name):
+        return name == 'encode'
+
+    def absint_getattr(self, interp, name, node):
+        if name == 'encode':
+            return ('mockmethod', self, 'encode')
+        raise AbsRaise('AttributeError', node, implicit=True)
+
+    def absint_method(self, interp, name, args, kwargs, node):
+        self.used.append((list(args), dict(kwargs)))
+        return AList([], 'bytes')
+
+
+def charset_in_force(interp, ctx):
+    """The charset encode_string would use right now: observed by running its real body on a probe text (no event is
+    recorded for this and nothing is changed)."""
+    from .absint import EVENT_LOG
+    fn = ctx.p.func(META_MOD, 'encode_string')
+    if fn is None:
+        raise AnalysisError('encode_string not found in ' + META_MOD)
+    saved = interp.summaries.pop(fn.qname, None)
+    def probe_hook(i_, base, name, args, kwargs, node):
+        if isinstance(base, CodecProbe):
+            return base.absint_method(i_, name, args, kwargs, node)
+        return _NO
+    hooks, interp.method_hooks = interp.method_hooks, [probe_hook]
+    log = list(EVENT_LOG)
+    probe = CodecProbe()
+    try:
+        interp.call_function(fn, [probe], {})
+    except (AbsRaise, Unsupported):
+        pass
+    finally:
+        if saved is not None:
+            interp.summaries[fn.qname] = saved
+        interp.method_hooks = hooks
+        EVENT_LOG[:] = log
+    if len(probe.used) == 1 and len(probe.used[0][0]) >= 1:
+        return probe.used[0][0][0]
+    if len(probe.used) == 1 and 'encoding' in probe.used[0][1]:
+        return probe.used[0][1]['encoding']
+    return Opaque('charset in force')
+
+
+def with_charset(interp, ctx, charset, body):
+    """Run body() while `charset` is in force, put in force the way the library does it: through its own meta_charset."""
+    from .model import FuncInfo as FI, add_parents
+    src = "def __run_with_charset__(cs):\n    with meta_charset(cs):\n        return __charset_body__()\n"
+    tree = ast.parse(src)
+    add_parents(tree)
+    runner = FI('__run_with_charset__', ctx.p.module(META_MOD), tree.body[0])
+    saved = interp.builtin_summaries.get('__charset_body__')
+    interp.builtin_summaries['__charset_body__'] = lambda i_, a_, k_, n_: body()
+    try:
+        return interp.call_function(runner, [charset], {})
+    finally:
+        if saved is None:
+            interp.builtin_summaries.pop('__charset_body__', None)
+        else:
+            interp.builtin_summaries['__charset_body__'] = saved
 
 
 def make_message(ctx, type_, attrs, time):
